@@ -8,7 +8,7 @@ CHECK = {
              "server-first and same-direction runs, non-empty contents of 1..100000 bytes biased to varint/bufio "
              "boundaries, content types on none/all/any subset, chunk times = first-packet time + whole microseconds "
              "incl. non-monotonic and before-first-packet ones; a separate class with sub-microsecond fractions), "
-             "invalidate(subset), reset, close+reopen, cut the file at a generated offset (inside the last record, "
+             "invalidate(subset), reset, close+reopen (40 % of the reopens model a killed process: the descriptor is dropped without calling Close), cut the file at a generated offset (inside the last record, "
              "inside a record id, at a record boundary, inside the file header, anywhere)+reopen. TestVerifC15Big adds "
              "3..6 MiB chunks and mass invalidation so that the compaction inside setData (>=16 MiB and >=50% free) "
              "runs. After every operation every id is read through data(), DataForSearch(), Contains() and "
